@@ -404,7 +404,21 @@ class Ctx:
         evdir = VERIF / "evidence"
         evdir.mkdir(exist_ok=True)
         tmp = evdir / f"{self.pid}.json.tmp"
-        tmp.write_text(json.dumps(ev, indent=1, sort_keys=True, default=str) + "\n")
+        text = json.dumps(ev, indent=1, sort_keys=True, default=str)
+        # keep the record small (readers may cap its size): halve the longest list in coverage until it fits in ~3 MB
+        guard = 0
+        while len(text) > 3_000_000 and guard < 40:
+            guard += 1
+            cov = ev["coverage"]
+            lists = [(len(json.dumps(v, default=str)), k) for k, v in cov.items() if isinstance(v, list) and len(v) > 4]
+            if not lists:
+                break
+            _, k = max(lists)
+            cov.setdefault("truncated_lists", {})
+            cov["truncated_lists"][k] = cov["truncated_lists"].get(k, len(cov[k]))
+            cov[k] = cov[k][:max(4, len(cov[k]) // 2)]
+            text = json.dumps(ev, indent=1, sort_keys=True, default=str)
+        tmp.write_text(text + "\n")
         tmp.replace(evdir / f"{self.pid}.json")
         for k in self.known_hits:
             print(f"KNOWN-FINDING: property={self.pid} {k['finding']}: {k['what']}")
